@@ -6,7 +6,7 @@ Record C05_case := {
   c5_main : core_case;                 (* the whole run incl. the revert transaction, replayed in Layer B *)
   c5_art : vtable; c5_tag : vtable; c5_lab : vtable; c5_av : list lnk;   (* version tables at revert time *)
   c5_before : rlive;                   (* live tables before the revert *)
-  c5_tab : nat; c5_key : Z; c5_tx : Z; (* target version: class (0 Article, 1 Tag), key, transaction id *)
+  c5_tab : nat; c5_key : Z; c5_tx : Z; (* target version: class (0 Article, 1 Tag, 2 Label), key, transaction id *)
   c5_tags : bool; c5_labels : bool; c5_article : bool;   (* named relationships *)
   c5_paths : list (list Z);            (* all named paths, one list of relationship codes each (Model/Revert.v)   *)
   c5_deep : bool;                      (* a dotted path below one of them is named as well (tags.article,
@@ -22,11 +22,12 @@ Definition rlive_eqb (a b : rlive) : bool :=
   set_eqb lnk_eq (rl_lnk a) (rl_lnk b).
 
 Definition target (c : C05_case) : option vrow :=
-  find_row (if (c5_tab c =? 0)%nat then c5_art c else c5_tag c) [c5_key c] (c5_tx c).
+  find_row (match c5_tab c with 0%nat => c5_art c | 1%nat => c5_tag c | _ => c5_lab c end) [c5_key c] (c5_tx c).
 
 Definition C05_corr (c : C05_case) : bool :=
   negb (c5_exc c) && Core_corr (c5_main c) &&
-  if c5_deep c then true else     (* Model/Revert.v covers one level; deeper paths are judged by C05_prop only *)
+  if c5_deep c || (c5_tab c =? 2)%nat then true else     (* Model/Revert.v covers one level of Article / Tag targets;
+                                                             deeper paths and Label targets are judged by C05_prop only *)
   match target c with
   | None => false
   | Some v =>
@@ -58,12 +59,11 @@ Definition version_tags (c : C05_case) (n : rnode) : list Z :=
   end.
 Definition restores_tags (n : rnode) : bool := (rn_cls n =? 0)%nat && in_heads (rn_heads n) R_TAGS.
 
+(* (Until repair of F-C05-moved-child-deleted a second clause excluded calls in which a reached tag is one that another
+   reached article's `tags` restoration removes - a tag that moved between two reverted articles - as "order
+   dependent".  It was the defect itself: the tag must come back whatever the order.) *)
 Definition determined (c : C05_case) (R : list rnode) : bool :=
-  forallb (fun n => (length (filter (same_ent n) R) =? 1)%nat) R &&
-  forallb (fun n => negb (restores_tags n) ||
-     forallb (fun t => existsb (Z.eqb t) (version_tags c n) ||
-                       negb (existsb (fun m => (rn_cls m =? 1)%nat && (rn_key m =? t)) R))
-             (tags_of (c5_before c) (rn_key n))) R.
+  forallb (fun n => (length (filter (same_ent n) R) =? 1)%nat) R.
 
 Definition node_ok (c : C05_case) (n : rnode) : bool :=
   let after := c5_after c in
@@ -99,6 +99,16 @@ Definition C05_prop (c : C05_case) : bool :=
       let k := c5_key c in
       let before := c5_before c in
       let after := c5_after c in
+      if (c5_tab c =? 2)%nat then
+        (* a Label as target: its columns, and everything reached below it by the named paths *)
+        if vop v =? OP_DEL then
+          match lget (rl_lab after) k with None => true | Some _ => false end
+        else
+          match lget (rl_lab after) k with
+          | Some vals => list_eqb val_eqb vals (vdat v)
+          | None => false
+          end && nested_ok c v
+      else
       if (c5_tab c =? 0)%nat then
         if vop v =? OP_DEL then
           match lget (rl_art after) k with None => true | Some _ => false end
